@@ -1066,6 +1066,9 @@ def rw_path_canaries(toks, rep, qual, ex=None, unit_ret=False):
     return out
 
 
+# proof-hint bookkeeping for tools/hint_deps.py: every anchored hint seen while building, and the one to leave out
+HINT_SITES: list = []
+ABLATE_HINT: list = [None]
 CALLPADS: list = []   # unit header `//! callpad: method N <text>`: a call `.method(a1..aN)` with exactly N arguments gets <text> appended
                       # (the unit's version of the method carries extra ghost arguments; call sites the templates' replaces do not
                       # know -- e.g. a call a change adds -- are given the neutral ghost values)
@@ -1986,6 +1989,11 @@ def _build_fn(sf: SourceFile, item: Item, impl, ex: Extract, props, rep, unit, a
 
     # 2. inserts (anchored on current tokens)
     for (where, anchor, k, text) in ex.inserts:
+        HINT_SITES.append((qual, where, anchor, k))
+        if ABLATE_HINT[0] is not None and ABLATE_HINT[0] == (qual, anchor, k):
+            # tools/hint_deps.py: build the unit as if this hint could not be placed (to learn which clauses need it)
+            rep.append(("ABLATED", f"proof-hint anchor {anchor!r} #{k}: left out on request"))
+            continue
         pat = pat_tokens(anchor)
         hits = _find_seq_any(body_toks, pat)
         if len(hits) == 0 and k == 1 and len(pat) >= 4:
